@@ -586,7 +586,7 @@ package psatoken
 
 //@ func IClaims.Validate
 //@   option interface=true
-//@   ensures[verdict] (ret == nil) == claimsValid(recv, heapVer())
+//@   ensures[def-verdict] (ret == nil) == claimsValid(recv, heapVer())
 //@   modifies nothing
 
 //@ func EncodeClaimsToCBOR
@@ -660,14 +660,16 @@ package psatoken
 //@ func IProfile.GetName
 //@   option interface=true
 //@   option also-implementors=true
-//@   ensures[det] ret == profName(recv)
+//@   ensures[def-name] ret == profName(recv)
 //@   modifies nothing
 //@   option allocs=none
 
 //@ func IProfile.GetClaims
 //@   option interface=true
 //@   option also-implementors=true
-//@   ensures[fresh] ret != nil && fresh(ret) && dynType(ret) == profClaimsType(recv)
+//@   ensures[def-type] dynType(ret) == profClaimsType(recv)
+//@   ensures[fresh] ret != nil && fresh(ret)
+//@   ensures[deep-fresh] (typeIs(ret, *P1Claims) ==> ret.(*P1Claims) != nil && specAllFreshP1(*ret.(*P1Claims))) && (typeIs(ret, *P2Claims) ==> ret.(*P2Claims) != nil && specAllFreshP2(*ret.(*P2Claims)))
 //@   modifies nothing
 
 //@ func (Profile1).GetName
@@ -794,3 +796,131 @@ package psatoken
 //@ func init
 //@   property C13 C07 C16 C05 C04 C10 C17
 //@   modifies ErrMissingOptional, ErrMissingMandatory, ErrNotInProfile, ErrWrongProfile, ErrWrongSyntax, ErrOptionalClaimMissing, ErrMandatoryClaimMissing, ErrClaimNotInProfile, ErrOptionalFieldMissing, ErrMandatoryFieldMissing, ErrFieldNotInProfile, em, emError, dm, dmError, profilesRegister, CertificationReferenceP1RE, CertificationReferenceP2RE, globalsWithPrefix("test")
+
+// ---------------------------------------------------------------- custom CBOR (un)marshalers
+
+//@ func (*P1Claims).UnmarshalCBOR
+//@   property C04 C09 C07 C05 C18 C16
+//@   requires c != nil && wfComps(c.SwComponents) && dm != nil
+//@   ensures[ok] (ret == nil) == cborDecP1OK(bytesVal(buf), withField(old(*c), "Profile", nil))
+//@   ensures[value] ret == nil ==> *c == cborDecP1(bytesVal(buf), withField(old(*c), "Profile", nil))
+//@   ensures[fixed] c.CanonicalProfile == old(c.CanonicalProfile) && (c.SwComponents == old(c.SwComponents) || c.SwComponents == nil)
+//@   ensures[profile-cleared] c.Profile == nil || fresh(c.Profile)
+//@   ensures[copies] (c.ImplID != nil ==> noAlias(*c.ImplID, buf) || (c.ImplID == old(c.ImplID) && *c.ImplID == old(*c.ImplID))) && (c.BootSeed != nil ==> noAlias(*c.BootSeed, buf) || (c.BootSeed == old(c.BootSeed) && *c.BootSeed == old(*c.BootSeed))) && (c.Nonce != nil ==> noAlias(*c.Nonce, buf) || (c.Nonce == old(c.Nonce) && *c.Nonce == old(*c.Nonce))) && (c.InstID != nil ==> noAlias(*c.InstID, buf) || (c.InstID == old(c.InstID) && *c.InstID == old(*c.InstID)))
+//@   modifies *c, *c.Profile, *c.ClientID, *c.SecurityLifeCycle, *c.ImplID, *c.BootSeed, *c.CertificationReference, *c.NoSwMeasurements, *c.Nonce, *c.InstID, *c.VSI, c.SwComponents.(*SwComponents[*SwComponent]).values
+
+//@ func (*P2Claims).UnmarshalCBOR
+//@   property C04 C09 C07 C05 C18 C16
+//@   requires c != nil && wfComps(c.SwComponents) && dm != nil
+//@   ensures[ok] (ret == nil) == cborDecP2OK(bytesVal(buf), withField(old(*c), "Profile", nil))
+//@   ensures[value] ret == nil ==> *c == cborDecP2(bytesVal(buf), withField(old(*c), "Profile", nil))
+//@   ensures[fixed] c.CanonicalProfile == old(c.CanonicalProfile) && (c.SwComponents == old(c.SwComponents) || c.SwComponents == nil)
+//@   ensures[profile-cleared] c.Profile == nil || fresh(c.Profile)
+//@   ensures[profile-set] ret == nil && c.Profile != nil ==> profSet(*c.Profile)
+//@   ensures[copies] (c.ImplID != nil ==> noAlias(*c.ImplID, buf) || (c.ImplID == old(c.ImplID) && *c.ImplID == old(*c.ImplID))) && (c.BootSeed != nil ==> noAlias(*c.BootSeed, buf) || (c.BootSeed == old(c.BootSeed) && *c.BootSeed == old(*c.BootSeed))) && (c.InstID != nil ==> noAlias([]byte(*c.InstID), buf) || (c.InstID == old(c.InstID) && *c.InstID == old(*c.InstID)))
+//@   modifies *c, *c.Profile, *c.ClientID, *c.SecurityLifeCycle, *c.ImplID, *c.BootSeed, *c.CertificationReference, *c.Nonce, *c.InstID, *c.VSI, c.SwComponents.(*SwComponents[*SwComponent]).values
+
+//@ func (*SwComponents[*SwComponent]).UnmarshalCBOR
+//@   property C04 C09 C05 C18
+//@   requires o != nil && dm != nil
+//@   ensures[ok] (ret == nil) == cborDecCompsOK(bytesVal(v))
+//@   ensures[len] ret == nil ==> len(o.values) == cborDecCompsLen(bytesVal(v))
+//@   ensures[fresh] ret == nil ==> (o.values == nil || fresh(o.values)) && forall(j, 0, len(o.values), o.values[j] == nil || fresh(o.values[j]))
+//@   modifies o.values
+
+// ---------------------------------------------------------------- iclaims.go: CBOR decoding
+
+// the profile a CBOR token declares: the text under key 265, "" when the key is absent or null
+//@ spec cborProfile(b Int) string = ite(cborHas265(b), cborText265(b), "")
+
+//@ func DecodeClaimsFromCBOR
+//@   property C07 C16 C08 C05 C18 C04 C09 C20 C17
+//@   ensures[err] ret1 != nil ==> ret0 == nil
+//@   ensures[malformed] !cborSelOK(bytesVal(buf)) ==> ret1 != nil
+//@   ensures[unregistered] cborSelOK(bytesVal(buf)) && !inDom(profilesRegister, cborProfile(bytesVal(buf))) ==> ret1 != nil
+//@   ensures[dispatch] ret1 == nil ==> cborSelOK(bytesVal(buf)) && inDom(profilesRegister, cborProfile(bytesVal(buf))) && ret0 != nil && fresh(ret0) && dynType(ret0) == profClaimsType(profilesRegister[cborProfile(bytesVal(buf))].Profile)
+//@   ensures[p1] ret1 == nil && (cborProfile(bytesVal(buf)) == "" || cborProfile(bytesVal(buf)) == "PSA_IOT_PROFILE_1") ==> typeIs(ret0, *P1Claims) && wfP1(*ret0.(*P1Claims)) && ret0.(*P1Claims).CanonicalProfile == "PSA_IOT_PROFILE_1" && specNoAliasP1(*ret0.(*P1Claims), buf)
+//@   ensures[p2] ret1 == nil && cborProfile(bytesVal(buf)) == "http://arm.com/psa/2.0.0" ==> typeIs(ret0, *P2Claims) && wfP2(*ret0.(*P2Claims)) && ret0.(*P2Claims).CanonicalProfile == "http://arm.com/psa/2.0.0" && specNoAliasP2(*ret0.(*P2Claims), buf)
+//@   ensures[wf] ret1 == nil ==> (typeIs(ret0, *P1Claims) ==> wfP1(*ret0.(*P1Claims))) && (typeIs(ret0, *P2Claims) ==> wfP2(*ret0.(*P2Claims)))
+//@   modifies nothing
+
+//@ func DecodeAndValidateClaimsFromCBOR
+//@   property C08 C07 C04 C05 C17 C18
+//@   ensures[err] ret1 != nil ==> ret0 == nil
+//@   ensures[gate] ret1 == nil ==> ret0 != nil && claimsValid(ret0, heapVer())
+//@   ensures[same] ret1 == nil ==> cborSelOK(bytesVal(buf)) && inDom(profilesRegister, cborProfile(bytesVal(buf))) && fresh(ret0) && dynType(ret0) == profClaimsType(profilesRegister[cborProfile(bytesVal(buf))].Profile)
+//@   modifies nothing
+
+// ---------------------------------------------------------------- custom JSON unmarshalers
+
+//@ func (*P1Claims).UnmarshalJSON
+//@   property C12 C07 C05 C18 C16
+//@   requires c != nil && wfComps(c.SwComponents) && true
+//@   ensures[ok] (ret == nil) == jsonDecP1OK(bytesVal(buf), withField(old(*c), "Profile", nil))
+//@   ensures[value] ret == nil ==> *c == jsonDecP1(bytesVal(buf), withField(old(*c), "Profile", nil))
+//@   ensures[fixed] c.CanonicalProfile == old(c.CanonicalProfile) && (c.SwComponents == old(c.SwComponents) || c.SwComponents == nil)
+//@   ensures[profile-cleared] c.Profile == nil || fresh(c.Profile)
+//@   ensures[copies] (c.ImplID != nil ==> noAlias(*c.ImplID, buf) || (c.ImplID == old(c.ImplID) && *c.ImplID == old(*c.ImplID))) && (c.BootSeed != nil ==> noAlias(*c.BootSeed, buf) || (c.BootSeed == old(c.BootSeed) && *c.BootSeed == old(*c.BootSeed))) && (c.Nonce != nil ==> noAlias(*c.Nonce, buf) || (c.Nonce == old(c.Nonce) && *c.Nonce == old(*c.Nonce))) && (c.InstID != nil ==> noAlias(*c.InstID, buf) || (c.InstID == old(c.InstID) && *c.InstID == old(*c.InstID)))
+//@   modifies *c, *c.Profile, *c.ClientID, *c.SecurityLifeCycle, *c.ImplID, *c.BootSeed, *c.CertificationReference, *c.NoSwMeasurements, *c.Nonce, *c.InstID, *c.VSI, c.SwComponents.(*SwComponents[*SwComponent]).values
+
+//@ func (*P2Claims).UnmarshalJSON
+//@   property C12 C07 C05 C18 C16
+//@   requires c != nil && wfComps(c.SwComponents) && true
+//@   ensures[ok] (ret == nil) == jsonDecP2OK(bytesVal(buf), withField(old(*c), "Profile", nil))
+//@   ensures[value] ret == nil ==> *c == jsonDecP2(bytesVal(buf), withField(old(*c), "Profile", nil))
+//@   ensures[fixed] c.CanonicalProfile == old(c.CanonicalProfile) && (c.SwComponents == old(c.SwComponents) || c.SwComponents == nil)
+//@   ensures[profile-cleared] c.Profile == nil || fresh(c.Profile)
+//@   ensures[profile-set] ret == nil && c.Profile != nil ==> profSet(*c.Profile)
+//@   ensures[copies] (c.ImplID != nil ==> noAlias(*c.ImplID, buf) || (c.ImplID == old(c.ImplID) && *c.ImplID == old(*c.ImplID))) && (c.BootSeed != nil ==> noAlias(*c.BootSeed, buf) || (c.BootSeed == old(c.BootSeed) && *c.BootSeed == old(*c.BootSeed))) && (c.InstID != nil ==> noAlias([]byte(*c.InstID), buf) || (c.InstID == old(c.InstID) && *c.InstID == old(*c.InstID)))
+//@   modifies *c, *c.Profile, *c.ClientID, *c.SecurityLifeCycle, *c.ImplID, *c.BootSeed, *c.CertificationReference, *c.Nonce, *c.InstID, *c.VSI, c.SwComponents.(*SwComponents[*SwComponent]).values
+
+//@ func (*SwComponents[*SwComponent]).UnmarshalJSON
+//@   property C12 C05 C18
+//@   requires o != nil && true
+//@   ensures[ok] (ret == nil) == jsonDecCompsOK(bytesVal(v))
+//@   ensures[len] ret == nil ==> len(o.values) == jsonDecCompsLen(bytesVal(v))
+//@   ensures[fresh] ret == nil ==> (o.values == nil || fresh(o.values)) && forall(j, 0, len(o.values), o.values[j] == nil || fresh(o.values[j]))
+//@   modifies o.values
+
+
+// ---------------------------------------------------------------- iclaims.go: JSON decoding
+
+// jsonDecl(b,k): the object carries a non-null member named like the profile member of registered
+// entry k; jsonMatch(b,k): ... and its value is that entry's profile name.
+//@ spec jsonDecl(b Int, k string) bool = inDom(profilesRegister, k) && jsonHas(b, profilesRegister[k].JSONTag) && jsonMem(b, profilesRegister[k].JSONTag) != nil
+//@ spec jsonMatch(b Int, k string) bool = jsonDecl(b, k) && jsonMem(b, profilesRegister[k].JSONTag) == ifaceOf(profName(profilesRegister[k].Profile), any)
+
+//@ func DecodeClaimsFromJSON
+//@   property C07 C16 C12 C08 C05 C18 C17
+//@   ensures[err] ret1 != nil ==> ret0 == nil
+//@   ensures[syntax] !jsonObjOK(bytesVal(buf)) ==> ret1 != nil
+//@   ensures[multi] existsT(k1, string, existsT(k2, string, jsonMatch(bytesVal(buf), k1) && jsonMatch(bytesVal(buf), k2) && profName(profilesRegister[k1].Profile) != profName(profilesRegister[k2].Profile))) ==> ret1 != nil
+//@   ensures[nomatch] existsT(k, string, jsonDecl(bytesVal(buf), k)) && !existsT(k, string, jsonMatch(bytesVal(buf), k)) ==> ret1 != nil
+//@   ensures[default] ret1 == nil && !existsT(k, string, jsonDecl(bytesVal(buf), k)) ==> typeIs(ret0, *P1Claims) && dynType(ret0) == profClaimsType(profilesRegister[""].Profile)
+//@   ensures[match] ret1 == nil && existsT(k, string, jsonDecl(bytesVal(buf), k)) ==> existsT(k, string, jsonMatch(bytesVal(buf), k) && dynType(ret0) == profClaimsType(profilesRegister[k].Profile))
+//@   ensures[fresh] ret1 == nil ==> ret0 != nil && fresh(ret0)
+//@   ensures[wf] ret1 == nil ==> (typeIs(ret0, *P1Claims) ==> wfP1(*ret0.(*P1Claims))) && (typeIs(ret0, *P2Claims) ==> wfP2(*ret0.(*P2Claims)))
+//@   modifies nothing
+//@   loop 0 invariant (found == nil) == forallT(k, string, visited(rng, k) ==> !jsonMatch(bytesVal(buf), k))
+//@   loop 0 invariant found != nil ==> existsT(k, string, visited(rng, k) && jsonMatch(bytesVal(buf), k) && profilesRegister[k].Profile == found)
+//@   loop 0 invariant found != nil ==> forallT(k, string, visited(rng, k) && jsonMatch(bytesVal(buf), k) ==> profName(profilesRegister[k].Profile) == profName(found))
+//@   loop 0 invariant declared == existsT(k, string, visited(rng, k) && jsonDecl(bytesVal(buf), k))
+//@   loop 0 invariant forallT(k, string, visited(rng, k) ==> inDom(profilesRegister, k))
+
+//@ func DecodeAndValidateClaimsFromJSON
+//@   property C08 C07 C12 C05 C17 C18
+//@   ensures[err] ret1 != nil ==> ret0 == nil
+//@   ensures[gate] ret1 == nil ==> ret0 != nil && claimsValid(ret0, heapVer())
+//@   modifies nothing
+
+//@ func DecodeJSONClaims
+//@   property C08 C07 C12 C05 C17 C18
+//@   ensures[err] ret1 != nil ==> ret0 == nil
+//@   ensures[gate] ret1 == nil ==> ret0 != nil && claimsValid(ret0, heapVer())
+//@   modifies nothing
+
+//@ func DecodeUnvalidatedJSONClaims
+//@   property C08 C07 C12 C05 C17 C18
+//@   ensures[err] ret1 != nil ==> ret0 == nil
+//@   ensures[fresh] ret1 == nil ==> ret0 != nil && fresh(ret0)
+//@   modifies nothing
